@@ -2,6 +2,7 @@ mod common;
 mod memops;
 mod modfam;
 mod lowfam;
+mod lowgen;
 
 fn main() {
     common::install_panic_hook();
@@ -13,6 +14,7 @@ fn main() {
     match args[1].as_str() {
         "module" => modfam::main(&args[2..]),
         "lower" => lowfam::main(&args[2..]),
+        "lower-gen" => lowgen::main(&args[2..]),
         f => {
             eprintln!("unknown family {}", f);
             std::process::exit(2);
